@@ -73,6 +73,11 @@ def perturbed_texts(mnem):
     for e in ("L+1", "L-1", "1+L", "L+300", "L-$2001", "E+1", "E-1", "L+E", "L", "E", "ZZ9", "ZZ9-1"):
         for tmpl in ("#{}", "{}", "<{}", ">{}", "[{}]", "{},X", "{},Y", "{},S", "[{},X]", "[{},U]", "{},PCR", "[{},PCR]", "{},X+", "[{},--Y]"):
             yield tmpl.format(e)
+    # an addressing-mode prefix in front of an indexed offset (other assemblers use it to force the offset width)
+    for pfx in "<>":
+        for v in (0, 5, 15, 16, 100, 127, 128, 200, 255, 256, 1000, -1, -16, -17, -128, -129, -200, -257, -1000):
+            for tmpl in ("{}{},X", "{}{},S", "[{}{},Y]", "{}{},PCR"):
+                yield tmpl.format(pfx, v)
     for t in ("A,X+", "B,-Y", "D,X++", "A,--S", "5,X+", "5,--Y", "[A,X++]", "[5,--Y]", "#5,X", "#5,PCR", "#,X", ",PCR", "[,PCR]", "A,PCR", "[D,PCR]",
               "[#5,X]", "[#5]", "[#$1234]", "[#L,PCR]", "[#E,Y]", "[#L]", "#L", "<L", ">L", "#5", "<5", ">5"):
         yield t
@@ -89,7 +94,7 @@ def token_strings(maxlen, ren=None):
 
 
 # other spellings of the two symbols (constant, label): names made of register letters, names that contain a register name
-RENAMES = [("AB", "BD"), ("ABD", "DD"), ("XS", "SU"), ("PCRX", "CCX"), ("EA", "DPY")]
+RENAMES = [("AB", "BD"), ("ABD", "DD"), ("XS", "SU"), ("PCRX", "CCX"), ("EA", "DPY"), ("BH", "EACH")]
 REPS_NAMES = ["LDA", "LEAX", "JMP", "STX"]
 SYM_RE = __import__("re").compile(r"(?<![\w$'])[EL](?!\w)")
 
@@ -169,6 +174,19 @@ def check_case(case):
             intent = R.parse_operand(mnem, text, symvals)
         except Exception:
             intent = None
+        if intent is None and text[:1] in "<>[" and SYM_RE.search(text) is None:
+            # <n,R / >n,R / [<n,R]: the prefix may be refused, ignored or taken as a width - but an accepted statement must still mean n,R
+            stripped = text.replace("<", "", 1).replace(">", "", 1) if (text[:1] in "<>" or text[:2] in ("[<", "[>")) else None
+            try:
+                alt = R.parse_operand(mnem, stripped, SYMVALS) if stripped and "<" not in stripped and ">" not in stripped else None
+            except Exception:
+                alt = None
+            if alt is not None and alt.get("form") in ("idx", "pcr") and alt.get("nterms", 1) == 1 and "ren" not in case:
+                cls2, acc = R.classify(mnem, alt)
+                if cls2 == "valid":
+                    msg = acc(rec)
+                    if msg is not None:
+                        bad("encoded as something else", "the operand as written (prefix aside)", "{} <- bytes {}".format(msg, body.hex().upper()))
         if intent is not None:
             cls, why2 = R.classify(mnem, intent)
             if cls == "reject":
